@@ -224,6 +224,9 @@ VERUS = {
     'ctrl': dict(props=['C01', 'C06', 'C13', 'C02', 'C10', 'C18'], tier='quick',
                  desc='control-byte logic of the table core on extracted text over a Vec<u8> view of the control array, all table sizes, both widths: set_ctrl (mirror index, mirror invariant, frame), set_ctrl_hash, replace_ctrl_hash, is_bucket_full, record_item_insert_at (accounting F1), erase (EMPTY/DELETED, accounting, frame, no tombstone below one group), Tag, probe_seq; every control-byte access in bounds',
                  paired={}),
+    'guard': dict(props=['C04', 'C02'], tier='quick',
+                  desc='the scope-guard closure of rehash_in_place, extracted from inside the real function (closure header -> function header with the captures as parameters): from any state a hasher call can leave behind (buckets EMPTY / FULL / DELETED-marked, items counting the last two) it leaves no marker, items == #FULL, growth_left == capacity - items, mirror invariant intact -- with and without drop glue; this is the clause the defect fixed by 7863c1b violated',
+                  paired={}),
     'shrink': dict(props=['C08'], tier='quick',
                    desc='RawTable::shrink_to on extracted text against the contracts of capacity_to_buckets (proved in the same unit), with_capacity, resize and drop_inner_table: no element lost, never enlarges, empty + 0 frees the allocation, capacity() >= max(len, min(m, previous)), bucket count at most the one capacity_to_buckets gives for max(len, m); the unreachable_unchecked() after the infallible resize is dead',
                    paired={}),
